@@ -6,6 +6,7 @@ package vsync
 
 import (
 	orig "sync"
+	"sync/atomic"
 
 	"verif.local/sched"
 )
@@ -18,6 +19,24 @@ type Mutex struct {
 }
 
 func (m *Mutex) Held() bool { return m.held }
+
+// TryLockSeen is set by any TryLock call. Code that never calls TryLock cannot
+// observe a held mutex, so a lock-to-lock step is atomic for it and Lock is the
+// only scheduling point needed. Once the code under test uses TryLock that
+// argument is gone: a harness that finds TryLockSeen set after its sequential
+// reference runs turns UnlockPoints on, which makes every Unlock of a scheduled
+// thread a scheduling point too (the thread can be preempted while it holds the
+// mutex, so that another thread's TryLock fails).
+var (
+	TryLockSeen  atomic.Bool
+	UnlockPoints bool
+)
+
+// Adapt enables Unlock scheduling points if the code under test uses TryLock.
+func Adapt() bool {
+	UnlockPoints = TryLockSeen.Load()
+	return UnlockPoints
+}
 
 func (m *Mutex) Lock() {
 	if sched.Point("lock", m) {
@@ -34,6 +53,9 @@ func (m *Mutex) Lock() {
 
 func (m *Mutex) Unlock() {
 	if m.viaSch && m.held {
+		if UnlockPoints {
+			sched.Point("unlock", m)
+		}
 		m.held = false
 		m.viaSch = false
 		return
@@ -42,10 +64,15 @@ func (m *Mutex) Unlock() {
 }
 
 func (m *Mutex) TryLock() bool {
-	if sched.Active() {
+	TryLockSeen.Store(true)
+	if sched.Point("trylock", m) {
+		// always enabled; the outcome depends on where the explorer placed it
 		if m.held {
 			return false
 		}
+		m.held = true
+		m.viaSch = true
+		return true
 	}
 	return m.real.TryLock()
 }
